@@ -315,7 +315,7 @@ impl C16 {
           return;
         }
         let exists = c.index(label.0, label.1, label.2).is_some();
-        let kk = [("jdn", c.jdn(i)), ("s", s), ("fwd", forward as i64), ("provider", pv), ("y", y), ("ly", label.0), ("lm", label.1), ("ld", label.2)];
+        let kk = [("jdn", c.jdn(i)), ("s", s), ("fwd", forward as i64), ("provider", pv), ("y", y), ("ly", label.0), ("lm", label.1), ("ld", label.2), ("jie_jdn", JDN0 + jie.sec.div_euclid(86400))];
         out.fail(env, viol("provider", if exists { "panics" } else { "end_label_does_not_exist_panics" }, case, &kk, desc, format!("counts {:?} end {}", exp_counts, fmt_time(label)), e));
         return;
       }
@@ -430,6 +430,13 @@ impl Prop for C16 {
         out.set_exhaustive("limit", false);
       }
       "provider" => {
+        if shard == 0 {
+          // witnesses of known findings: LunarSect1 with the Lichun of AD 24 (inside the hole), end labels in the 1582 gap
+          for (y, m, d, s, f, p) in [(24i64, 1i64, 7i64, 38930i64, 1i64, 2i64), (24, 2, 10, 100, 1, 2), (1574, 7, 4, 64210, 1, 0)] {
+            let ix = c.index(y, m, d).unwrap() as i64;
+            run_case(env, out, "provider", &Case::ints(&[ix, s, f, p]), &ev);
+          }
+        }
         let total: u32 = env.tier.pick(40_000, 1_000_000);
         prop_run(env, out, "provider", total / nshards as u32, shard as u64, (birth_strategy(), 0i64..2, 0i64..4).prop_map(|((i, s), f, p)| Case::ints(&[i, s, f, p])), &ev);
         out.set_exhaustive("provider", false);
